@@ -17,6 +17,7 @@ import (
 	"strings"
 	"sync"
 
+	"github.com/feichai0017/NoKV/utils"
 	"github.com/feichai0017/NoKV/vfs"
 )
 
@@ -275,7 +276,14 @@ func (m *Manager) logEditsLocked(edits []Edit) error {
 	for _, edit := range edits {
 		m.apply(edit)
 	}
-	return m.maybeRewriteLocked()
+	// The edits are durable and applied: callers read an error from here as "nothing was
+	// logged" (a compaction then deletes the tables it has just registered). A size-triggered
+	// rewrite that fails leaves the old manifest in place, complete, and is tried again after
+	// the next edit, so its error is not the edit's.
+	if err := m.maybeRewriteLocked(); err != nil {
+		_ = utils.Err(fmt.Errorf("manifest: automatic rewrite failed: %w", err))
+	}
+	return nil
 }
 
 // discardAppendLocked cuts the manifest back to the offset at which a failed append started
